@@ -1,6 +1,6 @@
 """extra — property-specific phases beyond the common correspondence run.
 Each phase_<id>(tier, seed, build_status, harness_stats) returns (coverage_dict, violations_list)."""
-import os, json
+import os, json, re
 from vlib import *  # noqa
 import vlib
 
@@ -56,21 +56,58 @@ def phase_C13(tier, seed, st, stats):
                 if groups[key]:
                     picked.append(groups[key].pop(0))
     outs = vlib.model_on(["x." + k[2:] for k in picked])
-    viol, bad = [], 0
+    specs = vlib.model_on(picked)
+    # which feature combination the real kernels ran under (the harness notes what they see)
+    real = "a1p1"
+    for n in (stats.get("notes") or []):
+        m = re.search(r"HasAVX2=(\w+) HasPOPCNT=(\w+)", str(n))
+        if m:
+            real = "a%dp%d" % (m.group(1) == "true", m.group(2) == "true")
+    godebug = {"a1p1": "", "a0p1": "cpu.avx2=off", "a1p0": "cpu.popcnt=off", "a0p0": "cpu.avx2=off,cpu.popcnt=off"}
+    viol, bad, predicted, confirmed = [], 0, 0, 0
     lens = {}
-    for key, m in zip(picked, outs):
-        got = m.get("I")
+    for key, m, sp in zip(picked, outs, specs):
+        got = dict(f.split("=", 1) for f in (m.get("I") or "").split(";") if "=" in f)
         want = {o[0] for o in base[key]}
+        spec = sp.get("S")
         f = key.split("\t")
         n = 0 if f[1] == "-" else len(f[1]) // 2
         lens[min(n // 16, 20)] = lens.get(min(n // 16, 20), 0) + 1
-        if len(want) != 1 or got not in want:
+        # (1) under the features the real run had, the machine model must return what the kernel returned
+        if len(want) != 1 or got.get(real) not in want:
             bad += 1
             if len(viol) < 5:
                 viol.append({"kind": "x86 machine model on the translated assembly != the kernel's observed result "
                                      "(correspondence of X86.v / tools/asm2prog.py with the CPU no longer checks)",
-                             "case": key, "detail": "kernel returned %s, machine model %s" % (sorted(want), got)})
+                             "case": key, "detail": "kernel returned %s, machine model (%s) %s" % (sorted(want), real, got.get(real))})
+            continue
+        # (2) under the other feature combinations the machine model predicts what the kernel would return there:
+        #     a prediction that differs from the scalar definition is confirmed by running the real kernel under
+        #     that GODEBUG setting; confirmed = a failing input of the property under that configuration
+        for combo, val in got.items():
+            if combo == real or val == "GO" or val == spec:
+                continue
+            predicted += 1
+            if confirmed >= 3:
+                continue
+            env = dict(os.environ, GODEBUG=godebug[combo])
+            rc, out, _ = run([os.path.join(BUILD, "bin", "harness"), "-replay", key], env=env, timeout=60)
+            obs = dict(x.split("=", 1) for x in out.strip().split("\t") if "=" in x)
+            if obs.get("strcase") != spec or obs.get("bytcase") != spec:
+                confirmed += 1
+                viol.append({"kind": "kernel", "fn": f[0], "case": key, "godebug": godebug[combo],
+                             "detail": "under GODEBUG=%s the kernel returns %s/%s, the scalar definition is %s (predicted by the "
+                                       "machine model run on the translated assembly: %s)" % (godebug[combo], obs.get("strcase"), obs.get("bytcase"), spec, val)})
+            else:
+                bad += 1
+                if len(viol) < 5:
+                    viol.append({"kind": "x86 machine model on the translated assembly != the kernel's observed result "
+                                         "(correspondence of X86.v / tools/asm2prog.py with the CPU no longer checks)",
+                                 "case": key, "detail": "under GODEBUG=%s the kernel returns %s, the machine model %s" % (godebug[combo], obs.get("strcase"), val)})
     cov = {"x86_model_validation": {"kernel_cases_replayed_in_the_machine_model": len(picked), "disagreements": bad,
+                                    "features_of_the_real_run": real,
+                                    "predictions_for_other_feature_sets_differing_from_the_definition": predicted,
+                                    "of_which_confirmed_on_the_real_kernel": confirmed,
                                     "length_histogram_16B_buckets": {str(k): v for k, v in sorted(lens.items())},
                                     "placements": 6, "surroundings": 3, "feature_combinations": 4, "entry_points": 2}}
     return cov, viol
